@@ -5,7 +5,7 @@ import os, tempfile
 import numpy as np
 import torch
 
-from . import algrun, fill
+from . import algrun, fill, project
 
 LIB = ("ShapeMismatch", "RankMismatch", "IncompatibleTypes", "InvalidArguments", "NotImplementedError")
 
@@ -150,11 +150,26 @@ def handler(st, opts):
         key["tp"] = case["tp"]
     torch.manual_seed(0)
     thunk = call(tt, case)
+    # operands reachable from the thunk (built inside call()): a failing call must leave them as they were
+    held = [v for v in (c.cell_contents for c in (thunk.__closure__ or ())) if isinstance(v, tt.TT) and len(v.cores) > 0]
+    snap = algrun.snapshot(held)
     try:
         out = thunk()
     except Exception as e:   # noqa
         en = type(e).__name__
         stats["exc:" + en] = 1
+        for n, why in algrun.changed(held, snap):
+            k3 = dict(key); k3["verdict"] = "operand-changed"
+            problems.append({"prop": "C06", "cls": "operand-changed", "op": case["op"], "key": k3,
+                             "msg": "%s/%s raised %s but changed an operand first: %s" % (case["op"], case["cls"], en, "; ".join(why)),
+                             "replay": {"engine": "vf.errrun", "state": st}})
+        for o in held:
+            wf = project.wf_problems(o)
+            if wf:
+                k3 = dict(key); k3["verdict"] = "ill-formed"
+                problems.append({"prop": "C05", "cls": "ill-formed", "op": case["op"], "key": k3,
+                                 "msg": "%s/%s raised %s and left an operand ill-formed: %s" % (case["op"], case["cls"], en, wf),
+                                 "replay": {"engine": "vf.errrun", "state": st}})
         if res["doc"] and en not in LIB:
             k2 = dict(key); k2["verdict"] = "wrong-class"; k2["exc"] = en
             problems.append({"prop": "C18", "cls": "wrong-class", "op": case["op"], "key": k2,
